@@ -17,6 +17,7 @@
 package main
 
 import (
+	"regexp"
 	"bytes"
 	"context"
 	"encoding/json"
@@ -156,6 +157,10 @@ type stepSpec struct {
 	//   reauth: connection #ci is (re-)bound to client #as by ClientRegistry.UpdateAuth (what a second handshake on the
 	//           same connection does; the connection is registered again first if it had been removed)
 	//   remove: connection #ci is removed from the registry (ClientRegistry.Unregister: the kick / stale-cleanup window), its stream stays open
+	// concurrent pair: this command is parked in its Park-th storage call, the Pair command (another connection) is handled from
+	// start to end meanwhile on the same handler objects, then this command resumes
+	Park int       `json:"park"`
+	Pair *stepSpec `json:"pair,omitempty"`
 	Fault int `json:"fault"` // k > 0: the k-th storage call made while this command is handled fails (one-shot); -1: count the calls only
 	Ev string `json:"ev"`
 	Ci int    `json:"ci"`
@@ -194,10 +199,18 @@ type stepOut struct {
 	FaultFired bool      `json:"fault_fired"` // the injected fault was reached
 	FaultOn    string    `json:"fault_on,omitempty"`
 	Err        string    `json:"err,omitempty"`
+	Ok2        bool      `json:"ok2"`    // concurrent pair: success flag of the second command
+	X2         int64     `json:"x2"`     // ... identity the registry held for its connection
+	Parked     bool      `json:"parked"` // ... the first command did reach its Park-th storage call
 	PropOK     bool      `json:"prop_ok"`
 	PropKey    string    `json:"prop_key,omitempty"`
 	PropMsg    string    `json:"prop_msg,omitempty"`
+	fails      []failRec
 }
+type failRec struct{ kind, obj, msg string }
+
+var objRe = regexp.MustCompile(`(#|client )(\d+)`)
+
 type caseOut struct {
 	Steps    []stepOut `json:"steps"`
 	Init     stepOut   `json:"init"`
@@ -713,7 +726,11 @@ func runStep(w *world, s *stepSpec, before *stepOut) stepOut {
 	}
 	sp := &types.StreamPacket{ConnectionID: connID, Packet: &packet.TransferPacket{PacketType: pt, CommandPacket: cp}, Timestamp: time.Now()}
 	done := make(chan error, 1)
-	if s.Fault != 0 {
+	var parkedCh chan struct{}
+	if s.Pair != nil {
+		parkedCh = w.fstore.armPark(s.Park)
+	}
+	if s.Fault != 0 && s.Pair == nil {
 		k := s.Fault
 		if k < 0 {
 			k = 0
@@ -791,6 +808,43 @@ func runStep(w *world, s *stepSpec, before *stepOut) stepOut {
 				}
 			}
 		}
+	}
+	var sconn2 *capConn
+	if s.Pair != nil {
+		// wait until the first command is parked in storage (or has finished with fewer calls), run the second one through
+		select {
+		case <-parkedCh:
+			o.Parked = true
+		case e := <-done:
+			done <- e
+		case <-time.After(5 * time.Second):
+		}
+		cmdSeq++
+		connID2, sc2, err2 := senderConn(w, s.Pair)
+		sconn2 = sc2
+		if err2 == nil {
+			if cc := w.fx.Session.GetControlConnection(connID2); cc != nil {
+				o.X2 = w.idxOfClient(cc.ClientID)
+			}
+			cp2 := &packet.CommandPacket{CommandType: packet.CommandType(s.Pair.Cmd), CommandId: fmt.Sprintf("cmd-%d", cmdSeq), CommandBody: w.body(s.Pair, cmdSeq)}
+			d2 := make(chan error, 1)
+			go func() {
+				defer func() {
+					if r := recover(); r != nil {
+						d2 <- fmt.Errorf("panic: %v", r)
+					}
+				}()
+				d2 <- w.fx.Session.HandlePacket(&types.StreamPacket{ConnectionID: connID2, Timestamp: time.Now(),
+					Packet: &packet.TransferPacket{PacketType: packet.JsonCommand, CommandPacket: cp2}})
+			}()
+			select {
+			case e := <-d2:
+				o.Ok2 = e == nil
+			case <-time.After(8 * time.Second):
+				o.TimedOut = true
+			}
+		}
+		w.fstore.release()
 	}
 	deadline := time.After(12 * time.Second)
 	tick := time.NewTicker(200 * time.Microsecond)
@@ -894,7 +948,39 @@ loop:
 			}
 		}
 	}
-	evalProperty(w, s, before, &o)
+	if s.Pair == nil {
+		evalProperty(w, s, before, &o)
+		return o
+	}
+	// concurrent pair: every effect must be attributable to (authorised for) the authenticated sender of ONE of the two commands,
+	// and that command must be the one naming the object; what was written to the first sender is judged under its identity alone
+	oa, ob := o, o
+	oa.fails, ob.fails = nil, nil
+	ob.X, ob.DiscM, ob.DiscC, ob.DiscD, ob.SecretLeak = o.X2, nil, nil, nil, nil
+	var keep [][]int64
+	for _, d := range o.Deliveries { // packets written to the second sender's own connection are not deliveries to another client
+		if sconn2 != nil && d[0] == o.X2 && o.X2 != 0 {
+			continue
+		}
+		keep = append(keep, d)
+	}
+	oa.Deliveries, ob.Deliveries = keep, keep
+	evalProperty(w, s, before, &oa)
+	evalProperty(w, s.Pair, before, &ob)
+	for _, fa := range oa.fails {
+		both := strings.HasSuffix(fa.kind, "-disclosed")
+		for _, fb := range ob.fails {
+			if fb.obj == fa.obj {
+				both = true
+			}
+		}
+		if both && o.PropOK {
+			o.PropOK = false
+			o.PropKey = fmt.Sprintf("pair:cmd%d+cmd%d:%s", s.Cmd, s.Pair.Cmd, fa.kind)
+			o.PropMsg = fmt.Sprintf("command %d of connection identity %d was parked in its storage call #%d while command %d of connection identity %d ran: %s — not authorised for either sender's own command",
+				s.Cmd, o.X, s.Park, s.Pair.Cmd, o.X2, fa.msg)
+		}
+	}
 	return o
 }
 
@@ -932,6 +1018,7 @@ func evalProperty(w *world, s *stepSpec, before *stepOut, o *stepOut) {
 		cls = "nonparty"
 	}
 	fail := func(kind, msg string) {
+		o.fails = append(o.fails, failRec{kind, kind + "/" + objRe.FindString(msg), msg})
 		if o.PropOK {
 			o.PropOK = false
 			o.PropKey = fmt.Sprintf("cmd%d:%s:%s", s.Cmd, cls, kind)
@@ -944,11 +1031,11 @@ func evalProperty(w *world, s *stepSpec, before *stepOut, o *stepOut) {
 		ma := findRow(o.Mappings, mb[0])
 		switch {
 		case ma == nil:
-			if !party(mb) {
+			if !party(mb) || (packet.CommandType(s.Cmd) == packet.MappingDelete && int64(s.Obj) != mb[0]) {
 				fail("mapping-deleted", fmt.Sprintf("mapping #%d (listen=%d target=%d) deleted by connection identity %d", mb[0], mb[1], mb[2], x))
 			}
 		case ma[3] != mb[3] || ma[4] != mb[4]:
-			if !party(mb) {
+			if !party(mb) || (packet.CommandType(s.Cmd) == packet.TunnelTrafficReport && int64(s.Obj) != mb[0]) {
 				fail("traffic-counters", fmt.Sprintf("traffic counters of mapping #%d (listen=%d target=%d) changed %d/%d -> %d/%d by connection identity %d",
 					mb[0], mb[1], mb[2], mb[3], mb[4], ma[3], ma[4], x))
 			}
